@@ -358,7 +358,10 @@ pub fn gen_c18(out: &mut Out, rng: &mut Rng, thorough: bool) {
                 // replies are tagged with connection and sequence number
                 let tag = vec![c as u16, q as u16, rng.u16()];
                 let req = Request::ReadHoldingRegisters(q as u16, 3);
-                data.extend(frame(kind, rng.u16(), (c % 200) as u8 + 1, &spec::request_bytes(&req).unwrap()));
+                // (in every third run no client counts: all requests of all connections carry
+                // transaction id 0 and the same unit – only the connection tells them apart)
+                let (tid, unit) = if run % 3 == 1 { (0, 0x11) } else { (rng.u16(), (c % 200) as u8 + 1) };
+                data.extend(frame(kind, tid, unit, &spec::request_bytes(&req).unwrap()));
                 svc.push(match rng.below(8) {
                     0 => Svc::Decline,
                     1 => Svc::Exception(tokio_modbus::ExceptionCode::new(1 + (q % 4) as u8)),
